@@ -409,6 +409,20 @@ def expand_helper_calls(ctx, f: FuncInfo, e: ast.AST, depth: int = 2) -> ast.AST
     return T().visit(copy.deepcopy(e))
 
 
+def nested_of(f: FuncInfo, name: str | None, want_async: bool | None = None):
+    """The nested function of f that the local `name` denotes: the nested def of that name, or the one a single-definition local alias points to
+    (`_inner = store_result_bucket`); with name None the only nested function (optionally: the only async one)."""
+    if name is not None:
+        if name in f.nested:
+            return f.nested[name]
+        defs = local_defs(f, name)
+        if len(defs) == 1 and isinstance(defs[0], ast.Name) and defs[0].id in f.nested:
+            return f.nested[defs[0].id]
+        return None
+    cands = [n for n in f.nested.values() if want_async is None or n.is_async == want_async]
+    return cands[0] if len(cands) == 1 else None
+
+
 def emptiness_test(e: ast.AST) -> ast.AST | None:
     """X if e tests that the collection X is empty: `not X`, `len(X) == 0`, `len(X) < 1`, `not len(X)`; else None."""
     if isinstance(e, ast.UnaryOp) and isinstance(e.op, ast.Not):
